@@ -454,6 +454,12 @@ func (r *runner) exec1(op []string) []string {
 			r.wait()
 		}
 		return []string{r.sock()}
+	case "6":
+		id := common.AtoI(op[1])
+		if id < len(r.conns) {
+			udp.VerifSetConnLimit(r.conns[id], common.AtoI(op[2]))
+		}
+		return []string{r.sock()}
 	default:
 		if !r.guard(func() { _ = r.l.Close() }) {
 			return []string{"7"}
@@ -601,7 +607,13 @@ func runHistory(h *common.History, rng *rand.Rand) {
 				do("4", common.I(first+rng.IntN(len(r.conns)-first)))
 				h.Tags = append(h.Tags, "conn_close")
 			}
-		case c < 96:
+		case c < 95:
+			if len(r.conns) > first {
+				// the buffer of a connection with a slow reader fills up: datagrams for it are dropped, the connection stays
+				do("6", common.I(first+rng.IntN(len(r.conns)-first)), common.I([]int{1, 1, 2, 3, 0}[rng.IntN(5)]))
+				h.Tags = append(h.Tags, "conn_buffer_limit")
+			}
+		case c < 97:
 			do("5")
 			h.Tags = append(h.Tags, "listener_close")
 		default:
